@@ -162,7 +162,10 @@ OnProc(S, m, e) ==
 OnExit(S, m, e) ==
   LET p == e.pid
       isRound == p \in DOMAIN m.rounds
-      m1 == [m EXCEPT !.alive = @ \ {p}, !.holder = IF @ = p THEN 0 ELSE @]
+      \* C10/C13: a command that ends normally does not take the role with it (nobody else could ever act again: every later
+      \* try-submit-jobs, resubmit-jobs or cancel-jobs is refused)
+      m0 == Check(m, "RoleGivenBackAtExit", FaultFree(m) /\ e.exc \in {"", "SystemExit"} /\ m.holder = p /\ m.hasSt, m.st.sub = "")
+      m1 == [m0 EXCEPT !.alive = @ \ {p}, !.holder = IF @ = p THEN 0 ELSE @]
       \* C05: a recovery round started at quiescence hands over a batch or completes
       m2 == Check(m1, "QuiescentRoundProgress",
                   isRound /\ m.rounds[p].quiet /\ m.rounds[p].promoted /\ FaultFree(m) /\ ~AnyDry(S),
@@ -589,13 +592,13 @@ ClausesOf(c) ==
                      "VersionFilesAgree", "SubmittedHasNoBlockers", "VersionsNeverDecrease", "VersionsIncreaseWithChange",
                      "CountersMonotone", "StateAdvances", "BlockersShrink", "CompleteSticky", "BatchIndexMonotone"}
     [] c = "C10" -> {"OneSubmitter", "PromotionRefusedWhileHeld", "PromotionGrantedOnlyWhenFree", "StaleWriteRejected",
-                     "RoleReleasedByHolder"}
+                     "RoleReleasedByHolder", "RoleGivenBackAtExit"}
     [] c = "C11" -> {"OnePlacement", "OneLaunch", "StartAfterBlockers", "RowsNeverLost", "SqueueFailureHarmless", "FreshBatchIndex",
                      "CanceledNeverRuns", "AfterSqueueFaultNormal", "CompletesAfterRecovery"}
     [] c = "C12" -> {"MissingExact", "NoFabricatedResult", "FinishedKeepResults", "ResultKnownJob", "ResultStatusKnown", "OneResultPerJob",
                      "StartAfterBlockers", "CompletesAfterRecovery", "OneLaunch", "CanceledNeverRuns"}
     [] c = "C13" -> {"RerunExactly", "RerunAllFresh", "UntouchedPreserved", "UntouchedNotRerun", "OneEntryPerJob", "OneLaunch",
-                     "StartAfterBlockers", "RefuseLeavesUnchanged", "NoDeadEnd", "RowsNeverLost", "FinalResultsMatchReference",
+                     "StartAfterBlockers", "RefuseLeavesUnchanged", "NoDeadEnd", "RoleGivenBackAtExit", "RowsNeverLost", "FinalResultsMatchReference",
                      "FinalResultsComplete"}
     [] c = "C14" -> {"NoSbatchAfterCancel", "ActiveBatchesCancelled", "MissingExact", "FinishedKeepResults", "RowsNeverLost",
                      "NoFabricatedResult"}
